@@ -4,6 +4,7 @@
 #define VF_KITS_HPP
 
 #include <boost/mpl/vector.hpp>
+#include <boost/fusion/include/mpl.hpp>
 #include <boost/msm/front/state_machine_def.hpp>
 #include <boost/msm/front/functor_row.hpp>
 #include <boost/msm/front/history_policies.hpp>
